@@ -629,7 +629,8 @@ class HistoryGen:
         dg = DataGen(rng, mode, defined)
         rec = {}
         for f in raw["fields"]:
-            if "default" in f and rng.random() < 0.6:
+            # (an omitted bytes field with its string default makes the writers raise TypeError: observation O1)
+            if "default" in f and rng.random() < 0.6 and not (mode == "write" and f["type"] == "bytes" and rng.random() < 0.9):
                 continue
             rec[f["name"]] = dg.gen(f["type"], 1)
         return rec
